@@ -38,6 +38,27 @@ class Check(RuntimeCheck):
             rep.violation(path, f"swallowed error of case {r[1]} not remembered: induced `{(r[3] if len(r) > 3 else '')[:120]}`, verification said `{(r[4] if len(r) > 4 else '')[:120]}`")
         rep.coverage['post_verify_cases'] = len(rows)
         rep.coverage['evaluations'] = rep.coverage.get('evaluations', 0) + len(rows)
+        # exhausted single-use leaves of composite returns (Option / Result / Vec / Poll / tuples): each such panic is mock-induced and remembered
+        ok, log = engine.build_harness(['outputs'])
+        if not ok:
+            path = engine.write_replay(self.prop, 'build', log + '\n', ["harness/src/bin/outputs.rs no longer builds against /repo"])
+            rep.violation(path, "outputs harness does not build against /repo", no_input=True)
+            return
+        p = subprocess.run([os.path.join(engine.HARNESS, 'target', 'debug', 'outputs')], capture_output=True, text=True, timeout=300)
+        recs = [re.match(r'^rec (\w+) path=(\w+) val=(\S+) panics=(\d+) named=(\d+) remembered=(\d+) first=(.*)$', l) for l in p.stdout.split('\n') if l.startswith('rec ')]
+        if p.returncode != 0 or not recs or not all(recs):
+            path = engine.write_replay(self.prop, 'toolerror', p.stderr[-2000:], ["outputs harness crashed or printed no rec lines"])
+            rep.violation(path, f"outputs harness failed (exit {p.returncode})", no_input=True)
+            return
+        shown = 0
+        for m in recs:
+            if int(m.group(4)) != int(m.group(6)) and shown < 2:
+                shown += 1
+                path = engine.write_replay(self.prop, 'spec', m.group(0) + '\n', [f"property C08 violated by the real code: method {m.group(1)} configured through path `{m.group(2)}` with value {m.group(3)} and called three times panicked {m.group(4)} times, but verifying the original afterwards reported the text of only {m.group(6)} of those panics",
+                                                                                f"first panic: {m.group(7)}", "replay: /verif/harness/target/debug/outputs | grep ^rec"])
+                rep.violation(path, f"exhausted single-use return of {m.group(1)} ({m.group(3)}, path {m.group(2)}): {m.group(4)} panics, {m.group(6)} remembered by verification; first panic `{m.group(7)[:120]}`")
+        rep.coverage['composite_exhaustion_cases'] = sum(1 for m in recs if int(m.group(4)) > 0)
+        rep.coverage['evaluations'] += len(recs)
 
     def rule(self):
         return ("histories in which every mock-induced error kind occurs at varying positions, on the original or on clones, on "
